@@ -220,8 +220,12 @@ class Ref:
         if isinstance(a, RTuple) and is_num(b) and op == "/":
             return RTuple([self.arith(op, x, b) for x in a.items])
         if op == "+" and is_str(a) and is_str(b):
-            if isinstance(a, str) and isinstance(b, str): return a + b
-            return SStr(([a] if isinstance(a, str) else a.parts) + ([b] if isinstance(b, str) else b.parts))
+            if isinstance(a, str) and isinstance(b, str):
+                if self.fk is not None and len(a) + len(b) > (1 << 16): raise Cut("string longer than 65536 characters")
+                return a + b
+            r = SStr(([a] if isinstance(a, str) else a.parts) + ([b] if isinstance(b, str) else b.parts))
+            if len(r.parts) > 4096: raise Cut("string of more than 4096 pieces")
+            return r
         if not (is_num(a) and is_num(b)): raise RefStuck("arithmetic %s on %r and %r" % (op, type(a).__name__, type(b).__name__))
         if op == "/":
             x, y = to_float(a), to_float(b)
@@ -418,6 +422,7 @@ class Ref:
             while True:
                 if s[1] is not None and not self.branch(self.ev(s[1], env)): break
                 it += 1
+                if self.fk is not None and it > 20000: raise Cut("more than 20000 iterations of one loop")
                 if self.loop_bound is not None and it > self.loop_bound and self.fk is not None and len(self.fk.decisions) > d0:
                     raise Cut("loop bound %d" % self.loop_bound)
                 try:
